@@ -4,7 +4,7 @@
 (*    steps : << edit | [a |-> "reload", arg, obs] >>]                                         *)
 (* The first step is the initial load (a reload with arg "" from no contexts).  obs is the     *)
 (* projection of the real state after the reload and one "ping" / "tick" event:                *)
-(*   ctx : name -> [path, gen, mtime, cfg, imports, inst, started], n, log (contexts executed  *)
+(*   ctx : name -> [path, gen, mtime, cfg, seen, imports, inst, started], n, log (contexts executed  *)
 (*   by this reload, in order), hits / ticks : name -> counter kept in the context's globals   *)
 (*   by its event trigger / by the task it started when it was loaded.                         *)
 (* Every reload step is judged on its own, from the OBSERVED state before it:                  *)
@@ -20,7 +20,7 @@ Cases == JsonDeserialize(IOEnv.CASES)
 ToSet(s) == { s[i] : i \in 1..Len(s) }
 ConvFile(x) == [ex |-> x.ex, hash |-> x.hash, gen |-> x.gen, mtime |-> x.mtime, imps |-> ToSet(x.imps)]
 ConvFiles(fs) == [p \in PathSet |-> ConvFile(fs[p])]
-ConvCtx(x) == [path |-> x.path, gen |-> x.gen, mtime |-> x.mtime, cfg |-> x.cfg, imports |-> ToSet(x.imports),
+ConvCtx(x) == [path |-> x.path, gen |-> x.gen, mtime |-> x.mtime, cfg |-> x.cfg, seen |-> x.seen, imports |-> ToSet(x.imports),
                inst |-> x.inst, started |-> x.started]
 ConvObs(o) == [ctx |-> OverCtx([c \in CtxNames |-> ConvCtx(o.ctx[c])]), n |-> o.n, log |-> o.log,
                hits |-> OverCtx([c \in CtxNames |-> o.hits[c]]), ticks |-> OverCtx([c \in CtxNames |-> o.ticks[c]])]
